@@ -106,8 +106,11 @@ def main():
     # source C: TLC-generated positions that force the generator's special branches (double check, check evasion,
     # promotions, en passant, pins): examined as they are
     import games
-    fam_out, fam_jobs = games.run_movegen_families(chk, ["dblchk", "promo", "promopin", "evade", "ep"], nshards=16,
+    fam_out, fam_jobs = games.run_movegen_families(chk, ["dblchk", "evade", "ep"], nshards=16,
                                                    density=24 if q else 4, shards=[chk.seed % 16] if q else [0, 5, 10])
+    fo2, fj2 = games.run_movegen_families(chk, ["promo", "promopin"], nshards=8,     # split by pawn file: 8 shards
+                                          density=24 if q else 4, shards=[chk.seed % 8] if q else [0, 3, 6])
+    fam_out, fam_jobs = fam_out + fo2, fam_jobs + fj2
     fam_rows = []
     for (o, pth), job in zip(fam_out, fam_jobs):
         rows = vlib.read_ndjson(pth)
